@@ -23,6 +23,8 @@ PROPERTIES = {
             (A.A1_inputs_not_mutated, "C01.5 search does not modify its inputs",
              {"only": ["find_pattern_in_structure", "_get_positions_from_all_adjacent_unit_cells", "position_index_farthest_from_axis", "group_duplicates", "Atoms.copy"]}),
             (A.A2_copy_is_deep, "C01.5 copies are deep"),
+            (C.C_quaternion_layout, "C01 rotation construction: quaternion layout (vector, scalar), same half angle, normalised axis, clipped angle"),
+            (A2.A14b_fallback_axis, "C01 antiparallel poses: the fallback rotation axis is never degenerate by construction"),
         ],
         "decided": "element equality gate per pattern position; every earlier distance is re-checked with atol; no match is returned without passing "
                    "the rotation re-check (rotate, then translate to the anchor, compare with atol); returned indices, positions and rotations "
@@ -97,6 +99,7 @@ PROPERTIES = {
             (C.C_axis_diag, "C05.3 wrapping valid for every cell shape"),
             (A.A7_tolerance_provenance, "C05.2 the match rotation is accepted with the caller's tolerance", {"funcs": ["find_pattern_in_structure", "replace_pattern_in_structure"]}),
             (C.C_unchanged_pairs, "C05 replacement-only atoms are inserted, shared atoms kept: shared means coinciding coordinates"),
+            (C.C_quaternion_layout, "C05 the match rotation is built as a proper rotation quaternion in SciPy's layout"),
         ],
         "decided": "both patterns are shifted by the same vector read before either is moved; the fragment goes copy < rotate < translate < wrap < extend on every path; "
                    "the final translation goes to the match position of the atom that was the origin; np.diag(cell) is used for wrapping only under an orthorhombic guard",
